@@ -348,13 +348,14 @@ def sizeclass(n):
     return ("pow2" if p2 else ("odd" if n % 2 else "even")) + ("<=16" if n <= 16 else ">16")
 
 
-SCALES = [0, 0, 0, 0, 0, 0, -60, -45, -30, -12, 10, 25, 40]     # data are multiplied by 2**s (exactly)
+SCALES = [0, 0, 0, 0, 0, -70, -60, -52, -45, -30, -12, 10, 25, 40, 60]     # data are multiplied by 2**s (exactly)
+SINGLE_SCALES = (-40, 30)       # float32 / complex64: squares and N-fold sums stay normal numbers
 
 
 def pick_scale(rng, dtype):
     s = rng.choice(SCALES)
     if dtype in ("float32", "complex64"):
-        s = max(-20, min(20, s))
+        s = max(SINGLE_SCALES[0], min(SINGLE_SCALES[1], s))
     if is_int(dtype):
         s = 0
     return s
@@ -433,7 +434,14 @@ def gen_corr(rng, maxn, force_n=None):
         shape, axis = [force_n], rng.choice([0, -1])
     dts = ALL_DTYPES
     dx = rng.choice(dts)
-    dy = dx if rng.random() < 0.7 else rng.choice(dts)
+    r = rng.random()
+    if r < 0.6:
+        dy = dx
+    elif r < 0.8:       # one real and one complex argument (the conjugate must fall on the second)
+        cplx = ["complex128", "complex64"]
+        dy = rng.choice(cplx) if dx not in cplx else rng.choice([t for t in dts if t not in cplx])
+    else:
+        dy = rng.choice(dts)
     fn = rng.choice(["crosscov", "crosscov", "crosscorr", "autocov", "autocorr"])
     x = gen_values(rng, shape, dx, pick_scale(rng, dx))
     y = gen_values(rng, shape, dy, pick_scale(rng, dy))
@@ -548,21 +556,53 @@ def norm_tol(x):
     return 1e-9, 1e-9 * (1.0 + float(np.max(np.abs(x))))
 
 
-def case_zscore(d):
+def call_norm(which, x, axis, v="plain"):
+    """zscore / percent_change of x along axis, through the entry path named by v"""
     utils = mods()[0]
+    if v == "analyzer":
+        # NormalizationAnalyzer works along the last (time) axis of a TimeSeries
+        ts = mods()[4]
+        from nitime.analysis import NormalizationAnalyzer
+        A = NormalizationAnalyzer(ts.TimeSeries(x, sampling_interval=1.0))
+        return np.asarray((A.z_score if which == "zscore" else A.percent_change).data)
+    xv = as_variant(x, v)
+    if which == "zscore":
+        out = utils.zscore(xv, axis) if v == "positional" else utils.zscore(xv, axis=axis)
+    else:
+        out = utils.percent_change(xv, axis) if v == "positional" else utils.percent_change(xv, ax=axis)
+    if not np.array_equal(np.asarray(xv), x):
+        raise AssertionError("%s modified its input" % which)
+    return np.asarray(out)
+
+
+def rescaled(x, single):
+    """x * 2**k (exact) in the precision of x (integers: as float64), k far away from the scale of x"""
+    xf = x if x.dtype.kind in "fc" else x.astype(np.float64)
+    mag = float(np.max(np.abs(xf.astype(np.complex128))))
+    e = math.frexp(mag)[1] if mag > 0 else 0
+    if single:
+        k = (-45 - e) if e > -20 else (25 - e)
+    else:
+        k = (-75 - e) if e > -20 else (45 - e)
+    return (xf * xf.dtype.type(2.0) ** k).astype(xf.dtype), k
+
+
+def magclass(d):
+    e = d.get("scale_exp") or 0
+    return "/tiny" if e <= -45 else ("/small" if e < 0 else ("/huge" if e >= 40 else ("/large" if e > 0 else "")))
+
+
+def case_zscore(d):
     x = desc_arr(d["x"])
     v = d.get("v", "plain")
-    xv = as_variant(x, v)
-    out = np.asarray(utils.zscore(xv, d["axis"]) if v == "positional" else utils.zscore(xv, axis=d["axis"]))
-    if not np.array_equal(np.asarray(xv), x):
-        raise AssertionError("zscore modified its input")
+    out = call_norm("zscore", x, d["axis"], v)
     single = is_single(x.dtype)
     # the library kernel, called separately (in double precision also for single-precision data)
     stds = np.std(x.astype(np.complex128) if single else x, axis=d["axis"])
     rtol = 1e-4 if single else 1e-9
     atol = rtol * (1.0 + math.sqrt(x.shape[d["axis"]]))
     coq = "(KZscore %s %s %s %s %s %s %s)" % (nlist(x.shape), zlit(d["axis"]), flit(rtol), flit(atol), fclist(x), fl(stds), fclist(out))
-    c = Case(coq, {"d": d, "observed": arr_desc(out)}, "zscore/%s/%dd" % (dclass(x), x.ndim))
+    c = Case(coq, {"d": d, "observed": arr_desc(out)}, "zscore/%s/%dd%s%s" % (dclass(x), x.ndim, magclass(d), "/analyzer" if v == "analyzer" else ""))
     c.out = out
     return c
 
@@ -584,22 +624,26 @@ def oracle_zscore(d, out):
             return Fail(key, "z-scored lane (outer %d, inner %d) along axis %d has mean != 0" % (o, i, d["axis"]), float(mr), 0.0)
         if abs(float(var) - 1.0) > tol:
             return Fail(key, "z-scored lane (outer %d, inner %d) along axis %d has variance != 1" % (o, i, d["axis"]), float(var), 1.0)
+    # z-scores do not depend on the unit of the data: zscore(2**k x) == zscore(x)
+    xs, k = rescaled(x, is_single(x.dtype))
+    z2 = call_norm("zscore", xs, d["axis"])
+    tol = 1e-3 if is_single(x.dtype) else 1e-8
+    if not np.allclose(z2, out, rtol=tol, atol=tol):
+        j = int(np.argmax(np.abs(np.asarray(z2).ravel() - out.ravel())))
+        return Fail(key, "zscore(x * 2**%d) differs from zscore(x) (flat index %d): z-scores depend on the scale of the data" % (k, j),
+                    complex(np.asarray(z2).ravel()[j]), complex(out.ravel()[j]))
     return None
 
 
 def case_pct(d):
-    utils = mods()[0]
     x = desc_arr(d["x"])
     v = d.get("v", "plain")
-    xv = as_variant(x, v)
-    out = np.asarray(utils.percent_change(xv, d["axis"]) if v == "positional" else utils.percent_change(xv, ax=d["axis"]))
-    if not np.array_equal(np.asarray(xv), x):
-        raise AssertionError("percent_change modified its input")
+    out = call_norm("pct", x, d["axis"], v)
     m = np.mean(x.astype(np.complex128), d["axis"])
     scale = float(np.max(np.abs(x.astype(np.complex128)))) / float(np.min(np.abs(m)))
     rtol, atol = (1e-4, 1e-3 * (1.0 + scale)) if is_single(x.dtype) else (1e-9, 1e-7 * (1.0 + scale))
     coq = "(KPct %s %s %s %s %s %s)" % (nlist(x.shape), zlit(d["axis"]), flit(rtol), flit(atol), fclist(x), fclist(out))
-    c = Case(coq, {"d": d, "observed": arr_desc(out)}, "percent_change/%s/%dd" % (dclass(x), x.ndim))
+    c = Case(coq, {"d": d, "observed": arr_desc(out)}, "percent_change/%s/%dd%s%s" % (dclass(x), x.ndim, magclass(d), "/analyzer" if v == "analyzer" else ""))
     c.out = out
     c.atol = atol
     return c
@@ -621,14 +665,27 @@ def oracle_pct(d, out):
         if abs(float(mr)) > tol or abs(float(mi)) > tol:
             return Fail(key, "percent-change lane (outer %d, inner %d) along axis %d has mean != 0" % (o, i, d["axis"]),
                         complex(float(mr), float(mi)), 0.0)
+    xs, k = rescaled(x, is_single(x.dtype))
+    p2 = np.asarray(call_norm("pct", xs, d["axis"]))
+    if not np.allclose(p2, out, rtol=1e-3 if is_single(x.dtype) else 1e-8, atol=tol):
+        j = int(np.argmax(np.abs(p2.ravel() - out.ravel())))
+        return Fail(key, "percent_change(x * 2**%d) differs from percent_change(x) (flat index %d)" % (k, j),
+                    complex(p2.ravel()[j]), complex(out.ravel()[j]))
     return None
 
 
-def gen_norm(rng, maxn, which, N=None):
+def norm_variant(rng, shape, axis):
+    last = (axis == -1 or axis == len(shape) - 1)
+    if last and rng.random() < 0.3:
+        return "analyzer"
+    return rng.choice(ARRAY_VARIANTS + ["list"])
+
+
+def gen_norm(rng, maxn, which, N=None, dt=None, sc=None):
     shape, axis = gen_shape(rng, maxn)
     if N:
         shape[axis] = N
-    dt = rng.choice(["float64", "float64", "complex128", "float32"] + INT_DTYPES)
+    dt = dt or rng.choice(["float64", "float64", "complex128", "float32", "complex64"] + INT_DTYPES)
     if is_int(dt):
         return gen_norm_int(rng, shape, axis, dt, which)
     x = gen_values(rng, shape, dt)
@@ -642,9 +699,9 @@ def gen_norm(rng, maxn, which, N=None):
             lane[0] += 1
         if which == "pct" and abs(np.mean(lane)) < 0.25:
             lane += 2.5
-    sc = pick_scale(rng, dt)
+    sc = pick_scale(rng, dt) if sc is None else sc
     x = (x * 2.0 ** sc).astype(dt)      # exact: offsets and spreads scale together
-    return {"k": which, "axis": axis, "x": arr_desc(x), "v": rng.choice(ARRAY_VARIANTS + ["list"])}
+    return {"k": which, "axis": axis, "x": arr_desc(x), "v": norm_variant(rng, shape, axis), "scale_exp": sc}
 
 
 def gen_norm_int(rng, shape, axis, dt, which):
@@ -670,7 +727,7 @@ def gen_norm_int(rng, shape, axis, dt, which):
             if np.ptp(lf) > 0 and abs(np.mean(lf)) >= 0.25 * np.max(np.abs(lf)):
                 break
         xm[idx] = lane
-    return {"k": which, "axis": axis, "x": arr_desc(x), "v": rng.choice(ARRAY_VARIANTS + ["list"])}
+    return {"k": which, "axis": axis, "x": arr_desc(x), "v": norm_variant(rng, shape, axis)}
 
 
 # ---- analyzer
@@ -843,7 +900,7 @@ def gen_corrspec(rng, maxn, n=None):
 
 
 # ---- entropy family
-ENT_VARIANTS = ["int64", "int64", "int32", "int8", "float64", "list", "tuple", "strided", "readonly"]
+ENT_VARIANTS = ["int64", "int64", "int32", "int8", "float64", "float32", "tiny", "huge", "list", "tuple", "strided", "readonly"]
 
 
 def ent_input(x, v):
@@ -851,8 +908,12 @@ def ent_input(x, v):
         return list(x)
     if v == "tuple":
         return tuple(x)
-    if v in ("int32", "int8", "float64"):
+    if v in ("int32", "int8", "float64", "float32"):
         return np.array(x, dtype=v)
+    if v == "tiny":                      # the same symbols as float64 values of magnitude 2**-70
+        return np.array(x, dtype=np.float64) * 2.0 ** -70
+    if v == "huge":
+        return np.array(x, dtype=np.float64) * 2.0 ** 60
     if v in ("strided", "readonly"):
         return as_variant(np.array(x, dtype=np.int64), v)
     return np.array(x, dtype=np.int64)
@@ -1027,12 +1088,73 @@ def oracle(d, out, rng):
     elif k == "pct":
         f = oracle_pct(d, out)
     elif k in ("xcorr", "xcorr_norm"):
-        return oracle_xcorr(d, out)
+        fs = oracle_xcorr(d, out)
+        f = scale_check(d, out)
+        return fs + ([f] if f else [])
     elif k == "corrspec":
         f = oracle_corrspec(d, out)
     else:
         f = oracle_ent(d, out, rng)
+    if f is None and k != "ent":
+        f = scale_check(d, out)
     return [f] if f else []
+
+
+def scale_check(d, out):
+    """homogeneity in the unit of the data, on the implementation: the covariances scale with the
+    product of the two factors, every normalised measure does not change at all.  The factors are
+    exact powers of two far away from the scale of the input (tiny if the input is ordinary, huge
+    if it is tiny), so a hidden absolute threshold shows up as a difference."""
+    k = d["k"]
+    out = np.asarray(out)
+    if k == "corr":
+        x, y = desc_arr(d["x"]), desc_arr(d["y"])
+        single = is_single(x.dtype) or (d["fn"] in ("crosscov", "crosscorr") and is_single(y.dtype))
+        xs, a = rescaled(x, single)
+        ys, b = rescaled(y, single)
+        if d["fn"] in ("autocov", "autocorr"):
+            b = a
+        if single and not (-60 < a + b < 60):
+            return None
+        d2 = dict(d, x=arr_desc(xs), y=arr_desc(ys), v="plain")
+        o2 = np.asarray(call_corr(d2)[0]).astype(np.complex128) * 2.0 ** (-(a + b))
+        rtol, atol = corr_tol(d)
+        rtol, atol = 10 * max(rtol, 1e-8), 10 * max(rtol, 1e-8) / rtol * atol
+        ok = np.all(np.abs(o2 - out) <= atol + rtol * (np.abs(o2) + np.abs(out)))
+        what = "%s(x * 2**%d, y * 2**%d) differs from 2**%d * %s(x, y)" % (d["fn"], a, b, a + b, d["fn"])
+        key = "C20/%s/scale" % d["fn"]
+    elif k == "seed":
+        corr = mods()[2]
+        xs, a = rescaled(desc_arr(d["seed"]), False)
+        ys, b = rescaled(desc_arr(d["target"]), False)
+        o2 = np.atleast_1d(np.asarray(corr.seed_corrcoef(xs, ys)))
+        ok = np.allclose(o2, out, rtol=1e-8, atol=1e-8)
+        what = "seed_corrcoef(seed * 2**%d, target * 2**%d) differs from seed_corrcoef(seed, target)" % (a, b)
+        key = "C20/seed_corrcoef/scale"
+    elif k in ("xcorr", "xcorr_norm"):
+        xs, a = rescaled(desc_arr(d["data"]), False)
+        o2 = call_xcorr(dict(d, data=arr_desc(xs), v="plain"), k == "xcorr_norm")
+        if k == "xcorr":
+            o2 = o2 * 2.0 ** (-2 * a)
+        sc = float(np.max(np.abs(out)))
+        ok = np.allclose(o2, out, rtol=1e-8, atol=1e-8 * sc)
+        what = "%s of data * 2**%d is not the rescaled %s of the data" % (k, a, k)
+        key = "C20/CorrelationAnalyzer.%s/scale" % k
+    elif k == "corrspec":
+        cohere = mods()[3]
+        xs, a = rescaled(desc_arr(d["x1"]), False)
+        ys, b = rescaled(desc_arr(d["x2"]), False)
+        o2 = np.asarray(cohere.correlation_spectrum(xs, ys, norm=d["norm"])[1])
+        sc = float(np.max(np.abs(out)))
+        ok = np.allclose(o2, out, rtol=1e-7, atol=1e-7 * sc)
+        what = "correlation_spectrum(x1 * 2**%d, x2 * 2**%d) differs from correlation_spectrum(x1, x2)" % (a, b)
+        key = "C20/correlation_spectrum/scale"
+    else:
+        return None
+    if ok:
+        return None
+    j = int(np.argmax(np.abs(np.asarray(o2).ravel() - out.ravel())))
+    return Fail(key, what + " (flat index %d)" % j, complex(np.asarray(o2).ravel()[j]), complex(out.ravel()[j]))
 
 
 def corpus_cases():
@@ -1085,6 +1207,14 @@ def run(ctx):
             ds.append(gen_xcorr(rng, maxn, "xcorr", N=N))
             ds.append(gen_xcorr(rng, maxn, "xcorr_norm", N=N - 1))
             ds.append(gen_corrspec(rng, maxn, n=N - rep))
+    # every float dtype at the ends of the magnitude range, every run (a hidden absolute threshold
+    # such as machine eps must meet data below it: float64 < 2**-52, float32 < 2**-23)
+    strata = {"float64": (-70, -60, -52, 60), "complex128": (-70, -56, 45), "float32": (-40, -30, 30), "complex64": (-40, -27, 25)}
+    for which in ("zscore", "pct"):
+        for dt, scs in strata.items():
+            for sc in scs:
+                for rep in range(ctx.scale(1, 3)):
+                    ds.append(gen_norm(rng, 24, which, dt=dt, sc=sc))
     rng.shuffle(ds)                    # balance the shards
     import time as _t
     t0 = _t.time()
